@@ -407,8 +407,7 @@ def dispatchC16 : Dispatch := fun op args =>
       if v ≥ 2 ^ bits then badArgs else
       let sv := signedVal bits v
       if bits = 128 then
-        let fits := decide (-((2 : Int) ^ (64 * n - 1)) ≤ sv ∧ sv < (2 : Int) ^ (64 * n - 1))
-        both (limbsHex (intFromI128 n v)) (if fits then natToHex (ofInt n sv) else "panic")
+        both (optHex (intFromI128 n v)) (if n ≥ 2 then natToHex (ofInt n sv) else "panic")
       else both (optHex (intFromPrim bits n v)) (if n ≥ 1 then natToHex (ofInt n sv) else "panic")
     | _, _, _ => badArgs
   | "c16.i.to_i64", [v] =>
